@@ -45,6 +45,10 @@ Lemma special_sound121 : holds (chk_special_sound T121).
 Proof. vm_compute. reflexivity. Qed.
 Lemma cands_complete121 : holds (chk_cands_complete T121 R121).
 Proof. vm_compute. reflexivity. Qed.
+Lemma ascii_sound121 : holds (chk_ascii_sound T121).
+Proof. vm_compute. reflexivity. Qed.
+Lemma ascii_complete121 : holds (chk_ascii_complete R121).
+Proof. vm_compute. reflexivity. Qed.
 
 (* ---- lifted to all runes by the generic lemmas of FoldFacts2.v ---- *)
 
@@ -147,4 +151,19 @@ Proof.
   unfold fold121, cands121.
   exact (FoldFacts2.cands_exact T121 R121 range121 pairs121 members121 singletons121
            fm_sound121 ul_sound121 special_sound121 cands_complete121 r x).
+Qed.
+
+Theorem cands_range r x : 128 <= r <= MaxRune -> In x (cands121 r) -> 0 <= x <= MaxRune.
+Proof.
+  unfold cands121.
+  exact (FoldFacts2.cands_range T121 R121 range121 pairs121 members121 fm_sound121 ul_sound121 special_sound121 r x).
+Qed.
+
+(* F10: orbits of ASCII code points *)
+Theorem ascii_cands_exact r x :
+  0 <= r < 128 -> int32 x -> (fold121 x = fold121 r <-> In x (ascii_cands r)).
+Proof.
+  unfold fold121.
+  exact (FoldFacts2.ascii_cands_exact T121 R121 range121 pairs121 members121 singletons121
+           ascii_sound121 ascii_complete121 r x).
 Qed.
